@@ -307,6 +307,24 @@ pub fn random_image_string(rng: &mut Rng) -> String {
         "C:\\dir\\file.png",
         "\u{e9}\u{4e2d}\u{1F680}.png",
     ];
+    // strings that look like the placeholders of a template / format layer (the crate fills templates by
+    // textual replacement): a user string must come out verbatim even if it spells one
+    const NAMES: [&str; 26] = ["", "0", "1", "2", "3", "4", "size", "width", "height", "margin", "background", "color", "fill", "image", "href", "path", "d", "x", "y", "modules", "data", "content", "viewbox", "shape", "gap", "n"];
+    if rng.chance(1, 4) {
+        let name = *rng.pick(&NAMES);
+        let tok = match rng.below(7) {
+            0 | 1 | 2 => format!("{{{name}}}"),
+            3 => format!("{{{{{name}}}}}"),
+            4 => format!("${{{name}}}"),
+            5 => format!("%{name}%"),
+            _ => format!("{{{name}:.2}}"),
+        };
+        return match rng.below(3) {
+            0 => tok,
+            1 => format!("https://cdn.example.com/logos/acme_{tok}.png"),
+            _ => format!("{tok}{tok}/a b/{tok}"),
+        };
+    }
     if rng.chance(2, 3) {
         return rng.pick(&FIXED).to_string();
     }
